@@ -51,6 +51,29 @@ func init() {
 					map[string]any{"grammar": rec.Text, "tokens": wit, "level": "read-back tables"})
 				continue
 			}
+			// production coverage: one shortest sentence per production (a grammar with hundreds of terminals gets a
+			// small length bound above; its productions are still each exercised once), and each of them cut short
+			covered := 0
+			for _, sent := range rec.C.CoverSentences() {
+				covered++
+				r.Add("evaluations", 2)
+				if d := ref.Drive(rec.C, tab, sent, false); !d.Accept {
+					bad, wit = "parser rejects a sentence (one of the production-covering sentences)", sent
+					break
+				}
+				if len(sent) > 0 && !rec.C.Accepts(sent[:len(sent)-1]) {
+					if d := ref.Drive(rec.C, tab, sent[:len(sent)-1], false); d.Accept {
+						bad, wit = "parser accepts a sentence cut short by one token", sent[:len(sent)-1]
+						break
+					}
+				}
+			}
+			r.Add("production_covering_sentences", int64(covered))
+			if bad != "" {
+				r.Violate("c02", rec.Text+"|"+strings.Join(wit, " "), fmt.Sprintf("token sequence [%s]: %s\n  grammar: %s", strings.Join(wit, " "), bad, oneLine(rec.Text)),
+					map[string]any{"grammar": rec.Text, "tokens": wit, "level": "read-back tables"})
+				continue
+			}
 			// product with canonical LR(1): closes => identical machines => all lengths
 			if len(rec.Confl) == 0 {
 				pr := mc.LRProduct(tab, rec.LR)
